@@ -260,23 +260,32 @@ func (c *Cache) Statistics(tags map[string]string) []models.Statistic {
 // init initializes the cache and allocates the underlying store.  Once initialized,
 // the store re-used until Freed.
 func (c *Cache) init() {
-	if !atomic.CompareAndSwapUint32(&c.initializedCount, 0, 1) {
+	if atomic.LoadUint32(&c.initializedCount) == 1 {
 		return
 	}
 
+	// initializedCount is set only once the store is in place, and both change
+	// under the lock: a concurrent first write must never proceed with the empty
+	// store, which drops its values without an error.
 	c.mu.Lock()
-	c.store, _ = newring(ringShards)
+	if atomic.LoadUint32(&c.initializedCount) == 0 {
+		c.store, _ = newring(ringShards)
+		atomic.StoreUint32(&c.initializedCount, 1)
+	}
 	c.mu.Unlock()
 }
 
 // Free releases the underlying store and memory held by the Cache.
 func (c *Cache) Free() {
-	if !atomic.CompareAndSwapUint32(&c.initializedCount, 1, 0) {
+	if atomic.LoadUint32(&c.initializedCount) == 0 {
 		return
 	}
 
 	c.mu.Lock()
-	c.store = emptyStore{}
+	if atomic.LoadUint32(&c.initializedCount) == 1 {
+		c.store = emptyStore{}
+		atomic.StoreUint32(&c.initializedCount, 0)
+	}
 	c.mu.Unlock()
 }
 
